@@ -118,6 +118,12 @@ func checkC06(c *Ctx) (int, error) {
 	for _, cs := range spread(wcases) {
 		c.ev.sample(map[string]interface{}{"history": histString(cs.Ops), "setting": cs.Tag})
 	}
+	// the trailer checksums at their implementations' classic pitfall (see execBulkChecksum)
+	for bi, set := range []WSetting{{Kind: "zlib", Level: -2, Window: 32768}, {Kind: "zlib", Level: 1, Window: 32768}, {Kind: "gzip", Level: -2, Window: 32768}, {Kind: "zlib", Level: 6, Window: 32768}} {
+		cs := &WCase{ID: fmt.Sprintf("C06w-bulk-%d", bi), Set: set, Tag: settingTag(set) + "|checksum-bulk", Bulk: 1, Data: DataSpec{Class: "ones", Seed: int64(bi), Len: 1}}
+		wcases = append(wcases, cs)
+		c.ev.nontrivial(cs.Tag)
+	}
 	n, err := c.writerRun("c06w", c.spreadArch(wcases, true), true)
 	if err != nil || n > 0 {
 		return n, err
